@@ -163,19 +163,24 @@ func (c *connection) Skip(n int) (err error) {
 func (c *connection) Release() (err error) {
 	// Check inputBuffer length first to reduce contention in mux situation.
 	// c.operator.do competes with c.inputs/c.inputAck
-	if c.inputBuffer.Len() == 0 && c.operator.do() {
-		maxSize := c.inputBuffer.calcMaxSize()
-		// Set the maximum value of maxsize equal to mallocMax to prevent GC pressure.
-		if maxSize > mallocMax {
-			maxSize = mallocMax
-		}
+	// The operator belongs to this connection only while it is active: once it has been closed,
+	// the operator is handed back and may already serve another connection.
+	if c.IsActive() && c.inputBuffer.Len() == 0 && c.operator.do() {
+		// check again with the token held: while we hold it a closing connection cannot free the operator
+		if c.IsActive() {
+			maxSize := c.inputBuffer.calcMaxSize()
+			// Set the maximum value of maxsize equal to mallocMax to prevent GC pressure.
+			if maxSize > mallocMax {
+				maxSize = mallocMax
+			}
 
-		if maxSize > c.maxSize {
-			c.maxSize = maxSize
-		}
-		// Double check length to reset tail node
-		if c.inputBuffer.Len() == 0 {
-			c.inputBuffer.resetTail(c.maxSize)
+			if maxSize > c.maxSize {
+				c.maxSize = maxSize
+			}
+			// Double check length to reset tail node
+			if c.inputBuffer.Len() == 0 {
+				c.inputBuffer.resetTail(c.maxSize)
+			}
 		}
 		c.operator.done()
 	}
